@@ -305,6 +305,17 @@ func runScenario(t *testing.T, s scen) (o outcome) {
 				}
 				c.release(gate)
 			}
+		case s.Place == "sd0":
+			// fourth order: a deadline call of Dial's own goroutine that is not the poison (clearing the deadlines,
+			// arming Dialer.Timeout) is slow; the context is cancelled meanwhile, the watcher poisons the connection
+			// and finishes; only then does the slow call take effect. If the library makes no such call, this is
+			// "cancel while blocked on the silent peer".
+			c.gate("sd0")
+			synctest.Wait()
+			o.gateParked = c.isParked("sd0")
+			cancel()
+			synctest.Wait()
+			c.release("sd0")
 		case s.Place == "blocked":
 			synctest.Wait() // Dial is durably blocked on the silent peer
 			if s.Event == "cancel" {
@@ -422,7 +433,7 @@ func judge(c *mon.C, s scen, o outcome) bool {
 	// R3: forced order "context ended before the handshake I/O finished"
 	forcedBefore := false
 	switch {
-	case s.Event == "cancel" && s.Place == "blocked", s.Event == "cancel" && s.Place == "dialphase" && s.CancelAt < s.DialDelay:
+	case s.Event == "cancel" && (s.Place == "blocked" || s.Place == "sd0"), s.Event == "cancel" && s.Place == "dialphase" && s.CancelAt < s.DialDelay:
 		forcedBefore = true
 	case s.Event == "cancel" && s.Place == "dialphase" && s.NoDeadlines && s.ChunkDelay > 0 && s.CancelAt < s.DialDelay+time.Duration(s.Chunks)*s.ChunkDelay && s.CancelAt%s.ChunkDelay != 0:
 		// cancelled strictly between two instalments of the response: the handshake I/O had not finished
@@ -717,6 +728,14 @@ func buildScenarios(t *testing.T) []scen {
 			scenList = append(scenList, s)
 		}
 		scenList = append(scenList, scen{CtxKind: "withdeadline", CtxDeadline: time.Second, Event: "none", Place: "dialphase", Peer: "responsive", Chunks: 1, WBuf: 4096, DialDelay: 10 * time.Second})
+		// S: cancel while a non-poisoning deadline call of Dial's goroutine is in flight (gate sd0), silent peer
+		for _, ck := range []string{"withcancel", "withdeadline", "foreign"} {
+			for _, to := range []time.Duration{0, time.Hour} {
+				for _, tls := range []bool{false, true} {
+					scenList = append(scenList, scen{CtxKind: ck, CtxDeadline: 2 * time.Hour, Timeout: to, Event: "cancel", Place: "sd0", Peer: "silent:0", Chunks: 1, WBuf: 4096, TLS: tls})
+				}
+			}
+		}
 		// N: a transport WITHOUT deadline support (every SetDeadline call is refused): the response arrives in
 		// instalments at 1 s, 2 s, (3 s); nothing happens / the context is cancelled / its deadline expires /
 		// Dialer.Timeout fires at 1.5 s, between two instalments. Dial cannot be interrupted there, but what it
